@@ -6,5 +6,8 @@ import "verif/mon"
 func main() {
 	mon.Main(map[string]func(*mon.Run){
 		"C34": checkC34,
+		"C35": checkC35,
+		"C36": checkC36,
+		"C37": checkC37,
 	})
 }
